@@ -42,6 +42,7 @@ Rel(h, runs) ==
     [] Mode = "C02" /\ h.rel = "fix" -> IF n < 2 THEN "" ELSE P01!Fixpoint(c.sch, runs[1].rb, runs[2].evs, runs[2].rb)
     [] Mode = "C09" /\ h.rel = "present" -> P09!Present(runs)
     [] Mode = "C09" /\ h.rel = "options" -> FirstBad([i \in 1..n |-> IF i = 1 THEN "" ELSE P09!Options(runs[1], runs[i])], 1)
+    [] Mode = "C09" /\ h.rel = "width_exact" -> IF n < 2 THEN "" ELSE P09!WidthExact(runs[1], runs[2])
     [] Mode = "C19" /\ h.rel = "noop" -> P19!Rel(runs[1].evs, runs[2].evs, h.inserted)
     [] OTHER -> ""
 
